@@ -466,6 +466,7 @@ partial def exec (x : XState) (args : List String) : XState × String :=
     | some (some _), some none => (x, "err")
     | _, _ => (x, "bad")
   | ["rm", k] => match dec k with | some (some k) => stepOp x (.remove k) | _ => (x, "bad")
+  | ["setiv", n] => ({ x with vs := { x.vs with ivOpt := n.toNat!, ivSet := true } }, "ok")   -- SetInitialVersion
   | ["iterrace"] => exec x ["save"]   -- conc mode: a commit raced by a parked reader; for the model it is a commit
   | ["save"] =>
     let same := sameRoot x.vs
